@@ -336,6 +336,8 @@ META = (META[0] + " " + META_EXTRA, META[1])
 
 def run(chk, tier):
     db = D.load("checks")
+    from ..rules import params as _PR
+    _PR.check(chk, db, ['_string/basic_inplace_string', '_strings/find', '_strings/rfind'], floor=80)
     plain = D.load("plain")
     with open(c05.SPEC) as fh:
         table = json.load(fh)["entries"]
